@@ -246,8 +246,15 @@ def rule_p4(ctx) -> None:
     if bad is not None:
         ctx.finding("C05-P4", "Balancer.rebalance:accumulator-reordered", reb.loc(bad), "the accumulated results are reordered or mutated other than by extend: %s" % unparse(bad)[:60])
     # loop over the loader in order
-    loops = [n for n in own_nodes(reb.node) if isinstance(n, ast.For) and "dataloader" in unparse(n.iter)]
-    ok = len(loops) == 1 and ("enumerate(" in unparse(loops[0].iter) or isinstance(loops[0].iter, ast.Name))
+    # the loop whose body hands a batch to __rebalance_batch
+    def runs_batch(loop):
+        return any(isinstance(c, ast.Call) and (ctx.res.resolve_callee(c, reb) or (None, ""))[1].endswith(".__rebalance_batch") for st_ in loop.body for c in ast.walk(st_))
+
+    loops = [n for n in own_nodes(reb.node) if isinstance(n, ast.For) and runs_batch(n)]
+    it0 = loops[0].iter if loops else None
+    if isinstance(it0, ast.Call) and getattr(it0.func, "id", "") == "enumerate" and it0.args:
+        it0 = it0.args[0]
+    ok = len(loops) == 1 and isinstance(it0, ast.Name)
     ctx.instance("C05-P4", "batches are processed in loader order", reb.loc(loops[0]) if loops else reb.loc(), ok=ok)
     if not ok:
         ctx.finding("C05-P4", "Balancer.rebalance:loader-order", reb.loc(), "batches are not processed by a plain loop over the loader")
